@@ -149,6 +149,10 @@ def st_ds(draw, tier):
         st.sampled_from(["feat", "feat", "feat", "event", "event", "log",
                          "table", "config"]),
         st.integers(0, 50), st.integers(0, 50)), max_size=12))
+    comp = draw(st.sampled_from(COMPRESSIONS))
+    # uncompressed + default chunking would allocate a full 1 MiB HDF5 chunk per
+    # feature (30 000 range requests per case at chunk_size 256): small chunks then
+    chunk = 100 if comp == "none" else draw(st.sampled_from([100, 100, None]))
     return {"kind": "ds",
             "cs": draw(st.sampled_from([256, 512, 1000, 1024, 4096])),
             "keep": draw(st.sampled_from([1, 2, 2, 3, 3, 5, 8])),
@@ -157,8 +161,7 @@ def st_ds(draw, tier):
             "n": n, "feats": sorted(feats),
             "vals": draw(st.lists(st_float(0.3), min_size=1, max_size=6)),
             "seed": draw(st.integers(0, 2**16)),
-            "chunk": draw(st.sampled_from([100, 100, None])),
-            "comp": draw(st.sampled_from(COMPRESSIONS)),
+            "chunk": chunk, "comp": comp,
             "logs": logs,
             "table": draw(st.sampled_from([None, 1, 2, 5, None, 6])),
             "sample": draw(st.sampled_from(["s1", "Probe ü", "x y"])),
